@@ -2,7 +2,7 @@
 Same model/harness as C09 (Model/Conn.v, lib/vf/conn_impl.py).  Every generated history is replayed with a failure
 (defunct or close) injected at EVERY index; callback invocations are counted on the real object; the model is compared
 at every step."""
-import json
+import json, os
 from vf import core, conn_corr, conn_impl, conn_check, conn_aio
 
 META = {
@@ -49,7 +49,8 @@ def oracle_c10(h, acts, fail_index):
                         'paging session %r alive at the %s got %d error notifications' % (tok, h.fail_kind, e[1])))
     late = sorted(h.conn.__dict__['_requests_real'].keys())
     if late:
-        key = 'registered-after-failure.send-race' if h.send_race else 'registered-after-failure'
+        key = ('registered-after-failure.after-push' if getattr(h, 'push_race', False) and not h.send_race else
+               'registered-after-failure.send-race' if h.send_race else 'registered-after-failure')
         out.append((key, 'requests still registered on the dead connection after error_all_requests: streams %r' % late))
     return out
 
@@ -60,6 +61,7 @@ def with_fault(cfg, acts, k, kind, raising=(), control=False):
     h = conn_impl.Harness(**hc)
     h.fail_snapshot, h.fail_kind, h.send_race = None, kind, False
     h.fail_answered_tok, h.hb_failure_expected = None, False
+    h.push_race = False
     h.raising = set(raising)
 
     def snap():
@@ -70,13 +72,17 @@ def with_fault(cfg, acts, k, kind, raising=(), control=False):
 
     def a_defunct(a):
         snap()
-        if h.send_hook is None and h.in_nested:
+        if h.in_push_hook:
+            h.push_race = True       # the failure lands after send_msg handed the message to the reactor, before send_msg returns
+        elif h.send_hook is None and h.in_nested:
             h.send_race = True
         real_defunct(a)
 
     def a_close(a):
         snap()
-        if h.in_nested:
+        if h.in_push_hook:
+            h.push_race = True
+        elif h.in_nested:
             h.send_race = True
         real_close(a)
 
@@ -192,6 +198,30 @@ def run(ctx):
                 hs.append(('directed:' + nm + ':' + kind, cfg, seq, h))
                 ctx.count('fault_kind', nm + '-' + h.fail_kind)
                 judge(ctx, 'directed', cfg, seq, h, len(base_acts), kind, (), control)
+    # the connection fails right after send_msg handed the message to the reactor (push), before send_msg returns to the sender:
+    # the request is registered by then (send_msg registers BEFORE it pushes) and must be failed with the others
+    for npend in (0, 2):
+        for fk in ('defunct', 'close'):
+            for via in ('query', 'send'):
+                pend = [{'a': 'query', 'r': r, 'in_cb': [{'a': 'return'}]} for r in range(1, npend + 1)]
+                if via == 'query':
+                    last = [{'a': 'query', 'r': 7, 'in_cb': [{'a': 'return'}], 'at_push': [{'a': fk}]}]
+                else:
+                    last = [{'a': 'borrow', 'r': 7}, {'a': 'send', 'r': 7, 'in_cb': [{'a': 'return'}], 'at_push': [{'a': fk}]}]
+                cfg = dict(n_init=4, max_in_flight=6, thr=3)
+                h = conn_impl.Harness(**cfg)
+                h2, seq = with_fault(cfg, pend + last, len(pend) + len(last), 'close')   # the trailing close() is a no-op after the failure
+                h2.fail_kind = fk + '-at-push'
+                hs.append(('directed:at-push:' + fk, cfg, seq, h2))
+                ctx.count('fault_kind', 'at-push-' + fk)
+                judge(ctx, 'directed', cfg, seq, h2, len(seq) - 1, 'close', (), False)
+                c7 = h2.cb_counts.get(7, [0, 0, 0])
+                if sum(c7) != 1 or c7[2] != 1:
+                    ctx.violation('pending-callback.never-invoked.after-push' if sum(c7) == 0 else 'pending-callback.count.after-push',
+                                  'request 7 had been handed to the reactor (push) when the connection failed (%s): its handler got (deliveries, decode errors, '
+                                  'ConnectionShutdown) = %r; still registered: %r' % (fk, c7, sorted(h2.conn.__dict__['_requests_real'])),
+                                  case={'cfg': cfg, 'actions': seq, 'fault': [len(seq) - 1, 'close'], 'raising': [], 'control': False, 'expect_tok': 7},
+                                  kind='interleaving', theorem='C10_full_statement')
     # the refutation witness of the send/defunct race, on the real code
     w1 = [{'a': 'query', 'r': 7, 'in_cb': [{'a': 'return'}], 'after_check': [{'a': 'defunct'}]}]
     cfg = dict(n_init=4, max_in_flight=4, thr=2)
@@ -207,6 +237,7 @@ def run(ctx):
                 'non-trivial = at least one request or paging session outstanding at the failure')
     conn_check.compare_with_model(ctx, hs, 'C10')
     run_aio(ctx)
+    run_green(ctx)
 
 
 def aio_oracle(name, arg, n, raising):
@@ -269,8 +300,70 @@ def run_aio(ctx):
         ctx.proof_broken.append(('correspondence:Conn-asyncio', str(e)[-600:]))
 
 
+def green_oracle(rec):
+    tag = '%s.%s%s' % (rec['kind'], rec['name'], ('.' + rec['arg']) if rec.get('arg') else '')
+    out = []
+    if 'error' in rec:
+        return [(tag + '.harness-error', 'scenario raised %s' % rec['error'])]
+    for tok in range(1, rec['n'] + 1):
+        cnt = rec['counts'].get(str(tok), [0, 0, 0])
+        if sum(cnt) != 1 or cnt[1] + cnt[2] != 1:
+            out.append((tag + ('.handler-never-failed' if sum(cnt) == 0 else '.handler-count'),
+                        '%s reactor, %s with %d requests outstanding: handler %d was invoked (deliveries, decode errors, ConnectionShutdown) = %r; '
+                        'is_defunct=%s is_closed=%s socket closed=%s' % (rec['kind'], tag, rec['n'], tok, cnt, rec['defunct'], rec['closed'], rec['sock_closed'])))
+    if rec['registered']:
+        out.append((tag + '.still-registered', '%s: streams %r still registered after the failure' % (tag, rec['registered'])))
+    if not (rec['defunct'] or rec['closed']):
+        out.append((tag + '.not-failed', '%s: connection neither defunct nor closed afterwards' % tag))
+    if rec['later_send'] != 'refused':
+        out.append((tag + '.send-accepted', '%s: send_msg accepted a request after the failure' % tag))
+    return out
+
+
+def run_green_proc(kind, extra=()):
+    import subprocess, sys
+    env = dict(os.environ)
+    try:
+        p = subprocess.run([sys.executable, '-W', 'ignore', '-m', 'vf.conn_green', kind] + list(extra), env=env, stdout=subprocess.PIPE,
+                           stderr=subprocess.STDOUT, text=True, timeout=150)
+        out = p.stdout
+    except subprocess.TimeoutExpired as e:
+        out = (e.stdout or b'').decode() if isinstance(e.stdout, bytes) else (e.stdout or '')
+        return None, 'timeout: ' + out[-300:]
+    for line in out.split('\n'):
+        if line.startswith('JSON:'):
+            return json.loads(line[5:]), None
+    return None, out[-400:]
+
+
+def run_green(ctx):
+    ctx.trust('EventletConnection / GeventConnection driven in real greenthreads over an in-memory socket (lib/vf/conn_green.py), one subprocess per reactor')
+    for kind in ('eventlet', 'gevent'):
+        recs, err = run_green_proc(kind)
+        if recs is None:
+            ctx.violation(kind + '.reactor-hung-or-crashed', '%s reactor scenarios did not finish: %s' % (kind, err), case={'green': [kind]},
+                          theorem='C10_full_statement')
+            continue
+        for rec in recs:
+            case = {'green': [rec['kind'], rec['name'], rec['arg'] or '-', rec['n'], rec['raising']]}
+            ctx.case(['green', rec['kind'], rec['name'], rec['arg'], rec['n'], rec['raising']], nontrivial=True,
+                     sample={'reactor': kind, 'scenario': rec['name'], 'error': rec['arg'], 'requests': rec['n'], 'observed': {k: rec.get(k) for k in ('defunct', 'closed', 'counts', 'registered')}})
+            ctx.count('fault_kind', kind + '-' + rec['name'])
+            for key, what in green_oracle(rec):
+                ctx.violation(key, what, case=case, expected='every outstanding handler failed exactly once, later sends refused', actual=rec, kind='history',
+                              theorem='C10_full_statement')
+
+
 def replay(ctx, rp):
     case = rp.get('case') or {}
+    if case.get('green'):
+        kind, name, arg, n, raising = case['green']
+        recs, err = run_green_proc(kind, [name, arg, str(n), json.dumps(raising)])
+        found = [('hung', err)] if recs is None else green_oracle(recs[0])
+        print('observed', recs or err)
+        print('oracle', found)
+        print(('VIOLATION property=C10 replay=%s' % ctx.replay_path) if found else 'not reproduced')
+        return 1 if found else 0
     if case.get('aio'):
         name, arg, n, raising = case['aio']
         found, obs, _ = aio_oracle(name, arg, n, tuple(raising))
@@ -286,6 +379,10 @@ def replay(ctx, rp):
     h, seq = with_fault(case['cfg'], acts, k, kind, case.get('raising', ()), case.get('control', False))
     found = oracle_c10(h, seq, 0)
     print('per-handler (deliveries, decode errors, ConnectionShutdown):', h.cb_counts, 'paging', h.cp_events, 'defunct', h.conn.is_defunct)
+    if case.get('expect_tok') is not None:
+        c7 = h.cb_counts.get(case['expect_tok'], [0, 0, 0])
+        if sum(c7) != 1 or c7[2] != 1:
+            found = found + [('after-push', 'handler %r got %r' % (case['expect_tok'], c7))]
     print('oracle', found)
     print(('VIOLATION property=C10 replay=%s' % ctx.replay_path) if found else 'not reproduced')
     return 1 if found else 0
